@@ -109,10 +109,19 @@ Sozu_FrontHup ==
   /\ sess' = "closed" /\ closedBy' = "c2b"
   /\ UNCHANGED <<sent, rd, wr, rcvd, finSent, finSeen, eof>>
 
-SozuStep == \E d \in Dirs : Sozu_Read(d) \/ Sozu_Write(d) \/ Sozu_SeeFin(d) \/ Sozu_CloseAfterFin(d)
-PeerReads == \E d \in Dirs : (\E k \in 1..K : Peer_Read(d, k)) \/ Peer_Eof(d)
-Next == \/ SozuStep \/ Sozu_FrontHup \/ PeerReads
-        \/ \E d \in Dirs : (\E k \in 1..K : Peer_Write(d, k)) \/ Peer_Fin(d)
+\* one wrapper per action so that TLC's coverage names them
+Any_Sozu_Read == \E d \in Dirs : Sozu_Read(d)
+Any_Sozu_Write == \E d \in Dirs : Sozu_Write(d)
+Any_Sozu_SeeFin == \E d \in Dirs : Sozu_SeeFin(d)
+Any_Sozu_CloseAfterFin == \E d \in Dirs : Sozu_CloseAfterFin(d)
+Any_Peer_Read == \E d \in Dirs : \E k \in 1..K : Peer_Read(d, k)
+Any_Peer_Eof == \E d \in Dirs : Peer_Eof(d)
+Any_Peer_Write == \E d \in Dirs : \E k \in 1..K : Peer_Write(d, k)
+Any_Peer_Fin == \E d \in Dirs : Peer_Fin(d)
+
+SozuStep == Any_Sozu_Read \/ Any_Sozu_Write \/ Any_Sozu_SeeFin \/ Any_Sozu_CloseAfterFin
+PeerReads == Any_Peer_Read \/ Any_Peer_Eof
+Next == SozuStep \/ Sozu_FrontHup \/ PeerReads \/ Any_Peer_Write \/ Any_Peer_Fin
 
 Spec == Init /\ [][Next]_vars
 \* sozu's steps, the kernel and the receivers are fair; senders are free
